@@ -119,7 +119,7 @@ Theorem C07_resolve_true_post_refuted :
   exists fs m0 st', Resolvable fs m0 /\
     resolve_imports (fuel_bound fs empty_state) true fs empty_state m0 = Ok (true, st') /\
     has_unresolved_imports no_fixes (scan_fuel fs st' m0) st' m0 = Ok true /\
-    has_unresolved_imports {| fx_pop := true; fx_nullref := false |} (scan_fuel fs st' m0) st' m0 = Ok false.
+    has_unresolved_imports {| fx_pop := true; fx_nullref := false; fx_placeholder_children := false |} (scan_fuel fs st' m0) st' m0 = Ok false.
 Proof. exact ImportProofs.resolve_true_post_refuted. Qed.
 Print Assumptions C07_resolve_true_post_refuted.
 
@@ -134,7 +134,7 @@ Theorem C07_unresolved_test_crash_refuted :
   exists m0 st', resolve_imports (fuel_bound [] empty_state) true [] empty_state m0 = Ok (true, st') /\
                  has_unresolved_imports no_fixes (scan_fuel [] st' m0) st' m0 = Crash /\
                  flatten_precheck no_fixes (scan_fuel [] st' m0) st' m0 = Crash /\
-                 has_unresolved_imports {| fx_pop := false; fx_nullref := true |} (scan_fuel [] st' m0) st' m0 = Ok false.
+                 has_unresolved_imports {| fx_pop := false; fx_nullref := true; fx_placeholder_children := false |} (scan_fuel [] st' m0) st' m0 = Ok false.
 Proof. exact ImportProofs.unresolved_test_crash_refuted. Qed.
 Print Assumptions C07_unresolved_test_crash_refuted.
 
